@@ -150,6 +150,114 @@ def switch_cases(body, head):
     return out
 
 
+def strip_code(code):
+    """Go source with comments removed and white space collapsed (string, rune and raw-string literals kept verbatim)"""
+    out, j, n = [], 0, len(code)
+    while j < n:
+        c = code[j]
+        if c == '"' or c == "'":
+            k = j + 1
+            while k < n and code[k] != c:
+                k += 2 if code[k] == "\\" else 1
+            out.append(code[j:k + 1])
+            j = k + 1
+        elif c == "`":
+            k = code.index("`", j + 1)
+            out.append(code[j:k + 1])
+            j = k + 1
+        elif code[j:j + 2] == "//":
+            k = code.find("\n", j)
+            j = n if k < 0 else k
+        elif code[j:j + 2] == "/*":
+            k = code.find("*/", j + 2)
+            j = n if k < 0 else k + 2
+            out.append(" ")
+        else:
+            out.append(c)
+            j += 1
+    return re.sub(r"\s+", " ", "".join(out)).strip()
+
+
+def body_inventory(src):
+    """every top-level function / method of a file as (qualified name, digest of its comment-free body), in source
+    order, plus one entry for everything OUTSIDE function bodies (imports, types, variables, constants, signatures)"""
+    import hashlib
+    out, rest, last = [], [], 0
+    for m in re.finditer(r"^func (?:\((?:[A-Za-z_][A-Za-z0-9_]* )?\*?([A-Za-z_][A-Za-z0-9_]*)\) )?([A-Za-z_][A-Za-z0-9_]*)[(\[]", src, re.M):
+        if m.start() < last:
+            continue
+        name = (m.group(1) + "." if m.group(1) else "") + m.group(2)
+        eol = src.find("\n", m.start())
+        eol = len(src) if eol < 0 else eol
+        line = src[m.start():eol]
+        if not line.rstrip().endswith("{"):
+            # a one-line function (or a declaration without a body): the whole line is its text
+            out.append((name, hashlib.sha256(strip_code(line).encode()).hexdigest()[:12]))
+            rest.append(src[last:m.start()])
+            last = eol
+            continue
+        try:
+            i = src.index("{\n", m.end() - 1)
+        except ValueError:
+            continue
+        body = func_body(src[m.start():], r"\A" + re.escape(src[m.start():m.end()]))
+        if body is None:
+            continue
+        out.append((name, hashlib.sha256(strip_code(body).encode()).hexdigest()[:12]))
+        rest.append(src[last:i])
+        last = i + len(body)
+    rest.append(src[last:])
+    out.append(("<declarations>", hashlib.sha256(strip_code("\n".join(rest)).encode()).hexdigest()[:12]))
+    return out
+
+
+BODY_GROUPS = [
+    ("v5_patch", ["v5/patch.go", "v5/errors.go"]),
+    ("v5_merge", ["v5/merge.go"]),
+    ("codec_scanner", ["v5/internal/json/scanner.go"]),
+    ("codec_indent", ["v5/internal/json/indent.go"]),
+    ("codec_decode", ["v5/internal/json/decode.go"]),
+    ("codec_encode", ["v5/internal/json/encode.go"]),
+    ("codec_stream", ["v5/internal/json/stream.go"]),
+    ("codec_other", ["v5/internal/json/fold.go", "v5/internal/json/tags.go", "v5/internal/json/tables.go"]),
+    ("legacy_patch", ["patch.go", "errors.go"]),
+    ("legacy_merge", ["merge.go"]),
+    ("cmd", ["v5/cmd/json-patch/main.go", "v5/cmd/json-patch/file_flag.go", "cmd/json-patch/main.go", "cmd/json-patch/file_flag.go"]),
+]
+
+
+def bodies_lean(repo):
+    L = ["/- GENERATED by bin/extract_facts.py from the Go sources of the working tree.  Do not edit.",
+         "   One digest per function body (comments and white space removed) and one per file for everything outside",
+         "   function bodies: the whole non-test source text is pinned, file group by file group. -/",
+         "namespace JP.Generated\n"]
+    summary = {}
+    for key, files in BODY_GROUPS:
+        entries = []
+        for f in files:
+            pth = os.path.join(repo, f)
+            if not os.path.exists(pth):
+                entries.append((f + ":<missing>", ""))
+                continue
+            for name, h in body_inventory(read(pth)):
+                entries.append((f + ":" + name, h))
+        summary[key] = len(entries)
+        L.append(f"def bodies_{key} : List (String × String) := " + lean_list("(" + lean_str(a) + ", " + lean_str(b) + ")" for a, b in entries))
+    # source files that belong to no group (a new file is a change too)
+    known = set(f for _, fs in BODY_GROUPS for f in fs)
+    extra = []
+    for d in ("", "v5", "v5/internal/json", "v5/cmd/json-patch", "cmd/json-patch"):
+        dd = os.path.join(repo, d)
+        if os.path.isdir(dd):
+            for f in sorted(os.listdir(dd)):
+                rel = os.path.join(d, f) if d else f
+                if f.endswith(".go") and not f.endswith("_test.go") and f != "verif_hook.go" and rel not in known:
+                    extra.append(rel)
+    L.append("def sourceFilesOutsideGroups : List String := " + lean_list(lean_str(x) for x in extra))
+    L.append("\nend JP.Generated")
+    return "\n".join(L) + "\n", summary
+
+
 def main():
     repo, outp = sys.argv[1], sys.argv[2]
     facts = {}
@@ -393,6 +501,12 @@ def main():
     if old != text:
         with open(outp, "w", encoding="utf-8") as f:
             f.write(text)
+    btext, bsum = bodies_lean(repo)
+    bpath = os.path.join(os.path.dirname(outp), "Bodies.lean")
+    if (read(bpath) if os.path.exists(bpath) else None) != btext:
+        with open(bpath, "w", encoding="utf-8") as f:
+            f.write(btext)
+    facts["bodyInventory"] = bsum
     json.dump({k: v for k, v in facts.items() if k not in ("safeSet", "htmlSafeSet")}, sys.stdout, default=str)
 
 
